@@ -32,7 +32,7 @@ def graph(form, K=1, fix=None):
             doc += 'Ref r1: ' + O + '.' + cn + ' > ' + U + '.id\n'
         if form in ('block', 'all'):
             doc += 'Ref {\n  ' + O + '.(' + cn + ', id) - ' + P + '.(id, uid)\n}\n'      # left side not in declaration order
-        doc += 'TableGroup g {\n  ' + U_ADDR[a['g_u']] + '\n  ' + O + '\n  Note: \'gn\'\n}\nNote sn {\n  \'x\'\n}\nProject p {\n  Note: \'pn\'\n}\n'
+        doc += 'TableGroup g {\n  ' + U_ADDR[a['g_u']] + '\n  ' + O + '\n  Note: \'gn\'\n}\nNote sn {\n  \'x\'\n}\nNote sn {\n  \'y\'\n}\nProject p {\n  Note: \'pn\'\n}\n'
         return doc, cn
 
     def body(a):
@@ -123,7 +123,9 @@ def graph(form, K=1, fix=None):
         g = db.table_groups[0]
         if g.database is not db or len(g.items) != 2 or g.items[0] is not tu or g.items[1] is not to:
             return 'table group does not hold the Table objects'
-        if db.sticky_notes[0].database is not db:
+        if len(db.sticky_notes) != 2 or db.sticky_notes[0].text != 'x' or db.sticky_notes[1].text != 'y':
+            return 'sticky notes are not the declared ones'
+        if db.sticky_notes[0].database is not db or db.sticky_notes[1].database is not db:
             return 'sticky note does not point back to the database'
         if db.project.database is not db or db.project.note.parent is not db.project:
             return 'project / project note back-pointer wrong'
@@ -144,7 +146,9 @@ def alias_same_as_name(K=1):
 
     def body(a):
         cn = 'c' + text_of(a, 'n', K)
+        # with_public: another table in the public schema carries the alias's spelling as its bare name
         doc = ('Table core.items as items {\n  id int\n  ' + cn + ' int\n}\n'
+               + ('Table items {\n  z int\n}\n' if a['with_public'] else '') +
                'Table other {\n  x int' + (' [ref: > items.id]' if a['inline'] else '') + '\n}\n'
                + ('' if a['inline'] else 'Ref: other.x > items.' + cn + '\n') + 'TableGroup g {\n  items\n  other\n}\n')
         try:
@@ -157,10 +161,16 @@ def alias_same_as_name(K=1):
             return 'alias equal to the bare table name is lost or does not resolve'
         r = db.refs[0]
         want = t.columns[0] if a['inline'] else t.columns[1]
-        if r.col2[0] is not want or r.col1[0] is not db.tables[1].columns[0]:
+        if r.col2[0] is not want or r.col1[0] is not db.tables[-1].columns[0]:
             return 'reference addressed by alias is not bound to the aliased table'
         if db.table_groups[0].items[0] is not t:
             return 'group item addressed by alias is not the aliased table'
+        if a['with_public']:
+            tp = db.tables[1]
+            if tp.schema != 'public' or tp.name != 'items' or db['public.items'] is not tp or db[1] is not tp or db[0] is not t:
+                return 'lookup by full name / index does not return the same Table objects'
+            if r.col1[0] is not db.tables[2].columns[0]:
+                return 'reference start is not the declaring column'
         return ''
 
     return Harness(body, args, describe=lambda a: dict(a), bounds={'K': K})
